@@ -44,6 +44,9 @@ INSTANTS = [
     datetime(2100, 1, 1, 0, 0, 0, 9999, tzinfo=timezone.utc),
     datetime(2038, 1, 19, 3, 14, 8, 10000, tzinfo=timezone.utc),
     datetime(2024, 3, 5, 10, 20, 30, 250000, tzinfo=timezone.utc),
+    # the request goes out 4 ms after the connect starts: these two land in the last / first hundredth of a second
+    datetime(2031, 7, 4, 5, 6, 7, 993000, tzinfo=timezone.utc),
+    datetime(2031, 7, 4, 5, 6, 59, 996500, tzinfo=timezone.utc),
 ]
 
 
@@ -154,7 +157,17 @@ def run_shard(shard, tier) -> Stats:
                 st.ev(("w", n, pat, dev_id, a), "ok" if not prob else "bad", n > 0)
     else:
         # direct seam (pinned by the repository's tests), also for lengths the device path does not carry
-        World().close()
+        # the direct seam runs under the virtual clock too: the sub-second part cycles through values on both sides of every
+        # hundredth-of-a-second boundary that matters for the 2-digit centisecond field; now and then minutes or a day pass between two packets
+        wclock = World(epoch=datetime(2029, 12, 31, 23, 59, 50, 0, tzinfo=timezone.utc))
+        US = [0, 4999, 5000, 9999, 10000, 494000, 500000, 985000, 989999, 990000, 994000, 994999, 995001, 996000, 999000, 999900]
+        tick = [0]
+
+        def set_clock():
+            tick[0] += 1
+            want = US[tick[0] % len(US)]
+            cur = int(round((wclock.loop.time() % 1.0) * 1e6))
+            wclock.loop.jump(((want - cur) % 1000000) / 1e6 + (3 if tick[0] % 7 == 0 else 0) + (400 if tick[0] % 97 == 0 else 0) + (90000 if tick[0] % 1013 == 0 else 0))
         held = None      # (object returned by the previous decode, the frame it must still equal)
         LITS = [b"\x5a\x5a", b"\x83\x70", b"\xaa", b"ERROR", b"\x5a\x5a\x01\x11", b"\x10" * 16]
         for n in range(0, 601):
@@ -171,10 +184,15 @@ def run_shard(shard, tier) -> Stats:
                 dev_id = idl[(n + pat) % len(idl)]
                 case = {"kind": "direct", "len": n, "pattern": pat, "id": dev_id, "frame": frame}
                 prob = None
+                set_clock()
                 try:
+                    from ..harness import VDateTime
+                    now = VDateTime.now(timezone.utc)
                     p = rc.v2_parse(_Packet.encode(dev_id, frame))
                     if p.frame != frame or p.device_id != dev_id:
                         prob = "encode: reference decodes different frame/id"
+                    elif p.timestamp != expected_ts(now):
+                        prob = f"encode: timestamp {p.timestamp.hex()} at {now.isoformat()}"
                 except rc.RefError as e:
                     prob = "encode: " + str(e)
                 except Exception as e:  # noqa: BLE001
@@ -202,6 +220,7 @@ def run_shard(shard, tier) -> Stats:
                 if prob:
                     st.violation(f"direct {prob.split(':')[0]} residue={n % 16}" + (" (trailing bytes)" if "follow" in prob else ""), case, "round trip", prob)
                 st.ev(("d", n, pat), "ok" if not prob else "bad", n > 0)
+        wclock.close()
     st.reruns += det.reruns
     return st
 
